@@ -32,7 +32,7 @@ func vLoadDirs() {
 // vLoad: up to three files of different kinds with arbitrary sizes and access
 // times; optionally a second file for the same key, a lost+found directory
 // and a .DS_Store file.
-func vLoad(nFiles int, extras bool) {
+func vLoad(nFiles int, extras bool, dup bool) {
 	vLoadDirs()
 	var files []*vLoadFile
 	add := func(path, key string, logical int64, legacy bool, random string) {
@@ -62,6 +62,12 @@ func vLoad(nFiles int, extras bool) {
 	n := 1 + vsym.Choose("files", nFiles)
 	for i := 0; i < n; i++ {
 		all[i]()
+	}
+	dupOf := -1
+	if dup {
+		// a second file for the key of file 0 (left behind by an interrupted overwrite)
+		add("ac.v2/aa/"+hA+"-999888777", "ac/"+hA, -1, false, "999888777")
+		dupOf = 0
 	}
 	if extras {
 		switch vsym.Choose("extra", 3) {
@@ -99,7 +105,11 @@ func vLoad(nFiles int, extras bool) {
 	for i, f := range files {
 		el := c.lru.cache[f.key] // (not Get: that would change the recency order)
 		present[i] = el != nil
-		if el != nil {
+		if el != nil && dupOf >= 0 && (i == dupOf || i == len(files)-1) {
+			// two files for this key: the entry names exactly one of them
+			present[i] = el.Value.(*entry).value.random == f.random
+		}
+		if present[i] {
 			it := el.Value.(*entry).value
 			vsym.Assert(it.sizeOnDisk == f.mf.Size, "load/C09-entry-has-the-file-size")
 			vsym.Assert(it.size == f.logical, "load/C09-entry-has-the-logical-size")
@@ -128,6 +138,18 @@ func vLoad(nFiles int, extras bool) {
 			vsym.Reach("load-file-larger-than-cache")
 			continue
 		}
+		if dupOf >= 0 && (i == dupOf || i == len(files)-1) {
+			other := files[len(files)-1]
+			oi := len(files) - 1
+			if i == oi {
+				other, oi = files[dupOf], dupOf
+			}
+			if other.mf.Atime > f.mf.Atime && other.rd <= maxSize {
+				// replaced by the newer file of the same key (which fits on its own)
+				vsym.Reach("load-older-duplicate-replaced")
+				continue
+			}
+		}
 		// a dropped file that would fit on its own: every kept file is newer,
 		// and it did not fit next to the files newer than it
 		newer := int64(0)
@@ -148,7 +170,7 @@ func vLoad(nFiles int, extras bool) {
 	for e := c.lru.ll.Front(); e != nil; e = e.Next() {
 		var cur *vLoadFile
 		for _, f := range files {
-			if f.key == e.Value.(*entry).key {
+			if f.key == e.Value.(*entry).key && f.random == e.Value.(*entry).value.random {
 				cur = f
 			}
 		}
@@ -160,6 +182,7 @@ func vLoad(nFiles int, extras bool) {
 	}
 }
 
-func VerifLoad2()       { vLoad(2, false) }
-func VerifLoad3()       { vLoad(3, false) }
-func VerifLoadExtras()  { vLoad(1, true) }
+func VerifLoad2()      { vLoad(2, false, false) }
+func VerifLoad3()      { vLoad(3, false, false) }
+func VerifLoadExtras() { vLoad(1, true, false) }
+func VerifLoadDup()    { vLoad(2, false, true) }
